@@ -612,7 +612,7 @@ fn main() {
          finally no device may hold an open key that opens a probe sealed by one of its own seal keys. non-trivial = case whose \
          positive check passed (distinct by encapsulation)",
     )
-    .min(args.n(100, 1000))
+    .min(args.n(2000, 50_000))
     .require("agreement_positive_ok", "matching parameters must agree")
     .require("handler_positive_ok", "the handler flow must work")
     .require("peer-change:label", "label changes")
@@ -637,7 +637,7 @@ fn main() {
         finish_all(&args, vec![m]);
     }
 
-    let cases = args.n(3000, 50_000);
+    let cases = args.n(8000, 250_000);
     let cap = args.tier.pick(70.0, 800.0);
     run_sharded(&args, &mut m, cases, cap, |m, k| {
         let suite = if k % 10 >= 8 { "ecdsa-p256" } else { "default" };
